@@ -216,7 +216,7 @@ int KSI_TlvElement_serialize(const KSI_TlvElement *element, unsigned char *buf, 
 		goto cleanup;
 	}
 
-	if (element->subList == NULL || KSI_TlvElementList_length(element->subList) == 0) {
+	if (element->subList == NULL) {
 		dat_len = element->ftlv.dat_len;
 
 		if (buf != NULL) {
